@@ -30,6 +30,7 @@ type Item struct {
 	Sub     []Item // members, if this item is a sub-stream carrier
 	IsSub   bool
 	Stream  bool // handed over through a FIFO: no file at Path
+	Missing bool // sibling output of a skipped task that is not on disk
 }
 
 type Stream struct {
@@ -53,18 +54,25 @@ type RTask struct {
 	Content map[string][]byte // port -> expected bytes
 	Lin     *Lin
 	Joined  map[string][]Item
+	// with pre-existing outputs (C02/C03): the task must be skipped; a
+	// skipped multi-output task whose sibling output is absent leaves its
+	// consumers undefined (the property promises nothing about them)
+	Skipped   bool
+	Undefined bool
 }
 
 type Expect struct {
-	WF      *WF
-	Tasks   []*RTask
-	ByKey   map[string][]*RTask
-	Files   map[string][]byte // abs path -> content of every expected final regular file
-	Owner   map[string]*RTask // abs path -> producing task
-	Streams map[string]*Stream // "node.port"
-	Active  map[string]bool    // nodes in the run set (RunTo closure)
-	Lins    map[string]*Lin    // abs path -> lineage of the file at that path
-	StreamPaths map[string]bool // abs paths of streamed (FIFO) outputs
+	WF          *WF
+	Tasks       []*RTask
+	ByKey       map[string][]*RTask
+	Files       map[string][]byte  // abs path -> content of every expected final regular file
+	Owner       map[string]*RTask  // abs path -> producing task
+	Streams     map[string]*Stream // "node.port"
+	Active      map[string]bool    // nodes in the run set (RunTo closure)
+	Lins        map[string]*Lin    // abs path -> lineage of the file at that path
+	StreamPaths map[string]bool    // abs paths of streamed (FIFO) outputs
+	Pre         map[string][]byte  // abs path -> bytes of files that exist before the run
+	Extras      map[string]bool    // abs paths of extra files commands create
 }
 
 func Abs(p string) string {
@@ -154,8 +162,12 @@ func copyTags(m map[string]string) map[string]string {
 	return o
 }
 
-func Eval(w *WF) *Expect {
-	ex := &Expect{WF: w, ByKey: map[string][]*RTask{}, Files: map[string][]byte{}, Owner: map[string]*RTask{},
+func Eval(w *WF) *Expect { return EvalWith(w, nil) }
+
+// EvalWith evaluates the workflow given files that already exist at output
+// paths before the run (pre: abs path -> bytes).
+func EvalWith(w *WF, pre map[string][]byte) *Expect {
+	ex := &Expect{WF: w, Pre: pre, Extras: map[string]bool{}, ByKey: map[string][]*RTask{}, Files: map[string][]byte{}, Owner: map[string]*RTask{},
 		Streams: map[string]*Stream{}, Lins: map[string]*Lin{}, StreamPaths: map[string]bool{}}
 	ex.Active = w.closure()
 	for p, c := range w.Sources {
@@ -279,19 +291,50 @@ func (ex *Expect) evalProc(ni int) {
 		t.Key = simrt.TaskKey(n.Name, inPaths, pkv)
 		lin.TaskKey = t.Key
 		t.Lin = lin
-		for oi, o := range n.Outs {
+		for _, in := range n.Ins {
+			if it := t.Ins[in.Name]; it.Missing {
+				t.Undefined = true
+			}
+		}
+		for _, up := range ex.Tasks {
+			_ = up
+		}
+		for _, o := range n.Outs {
 			path := expandPattern(o.Pattern, t.Ins, t.Params)
 			t.Outs[o.Name] = path
+			if _, ok := ex.Pre[Abs(path)]; ok && !o.Stream {
+				t.Skipped = true
+			}
+		}
+		for oi, o := range n.Outs {
+			path := t.Outs[o.Name]
 			lin.OutFiles[o.Name] = path
 			content := simrt.OpContent(n.Name, inData, pkv, oi, n.PadTo)
+			missing := false
+			if t.Skipped && !o.Stream {
+				if b, ok := ex.Pre[Abs(path)]; ok {
+					content = b
+				} else {
+					missing = true
+				}
+			}
 			t.Content[o.Name] = content
-			outs[o.Name].Items = append(outs[o.Name].Items, Item{Path: path, Content: content, Lin: lin, Stream: o.Stream})
+			outs[o.Name].Items = append(outs[o.Name].Items, Item{Path: path, Content: content, Lin: lin, Stream: o.Stream, Missing: missing || t.Undefined})
 			if o.Stream {
 				ex.StreamPaths[Abs(path)] = true
 			} else {
-				ex.Files[Abs(path)] = content
 				ex.Owner[Abs(path)] = t
 				ex.Lins[Abs(path)] = lin
+				if !missing && !t.Undefined {
+					ex.Files[Abs(path)] = content
+				}
+			}
+		}
+		if !t.Skipped && !t.Undefined {
+			for _, x := range n.Extras {
+				xp := Abs(expandPattern(x, t.Ins, t.Params))
+				ex.Files[xp] = []byte("extra:" + t.Key + "\n")
+				ex.Extras[xp] = true
 			}
 		}
 		ex.Tasks = append(ex.Tasks, t)
@@ -308,9 +351,13 @@ func relWork(p string) string {
 	return strings.TrimPrefix(Abs(p), "/work/")
 }
 
+// TaskKeys: keys of the tasks that must execute (not skipped, defined).
 func (ex *Expect) TaskKeys() []string {
 	var ks []string
 	for _, t := range ex.Tasks {
+		if t.Skipped || t.Undefined {
+			continue
+		}
 		ks = append(ks, t.Key)
 	}
 	sort.Strings(ks)
